@@ -170,7 +170,7 @@ def monitor(spec, start, log):
     if log.outcome == 'interrupted' and T is None:
         bad.append('ticker ended without outcome although not nested in until()')
     for k, (now, v) in enumerate(log.ticks):
-        if v != now:
+        if type(v) not in (int, float) or v != now:
             bad.append('tick %d yielded %r but the time is %r' % (k, v, now))
         if kind == 'interval':
             want = t0 + (k + 1) * p
@@ -401,7 +401,7 @@ def monitor_float(case, out):
     ticks, ends, t0 = out['ticks'], out['ends'], out['t0']
     tol = 1e-9
     for k, (tick, v) in enumerate(ticks):
-        if v != tick:
+        if type(v) not in (int, float) or v != tick:
             bad.append('tick %d yielded %r but the time is %r' % (k, v, tick))
         if kind == 'interval':
             last = t0 if k == 0 else ticks[k - 1][0]
@@ -559,7 +559,7 @@ def monitor_closed(case, res):
         if t0 is None:
             continue
         for k, (tick, v) in enumerate(ticks):
-            if v != tick:
+            if type(v) not in (int, float) or v != tick:
                 bad.append('%s: tick %d yielded %r at time %r' % (name, k, v, tick))
             want = t0 + (k + 1) * p if spec['kind'] == 'interval' else (t0 if k == 0 else ends[k - 1]) + p
             if tick != want:
